@@ -30,3 +30,24 @@ Definition drift_ops : list mop := [ALarge 400; Abort; ALarge 400; Abort; ALarge
 Lemma accounting_drifts_without_large_subtraction :
   total (mrun true false drift_ops (mm0 0)) = 1200 /\ total (mrun true true drift_ops (mm0 0)) = 0.
 Proof. vm_compute. auto. Qed.
+
+(* TJPARAM_MAXMEMORY boundary: what an idle instance has accounted is its permanent pool, so two idle instances
+   (a used one and a fresh one) differ in the limit their next operation sees by exactly the difference of their
+   permanent pools, whatever image-pool allocations happened before ... *)
+Theorem idle_totals_differ_by_permanent_pool :
+  forall base (l1 l2 : list mop),
+  let m1 := mrun true true (l1 ++ [Abort]) (mm0 base) in
+  let m2 := mrun true true (l2 ++ [Abort]) (mm0 base) in
+  total m1 - total m2 = perm m1 - perm m2.
+Proof.
+  intros base l1 l2 m1 m2.
+  destruct (accounting_restored base l1) as [H1 _]. destruct (accounting_restored base l2) as [H2 _].
+  fold m1 in H1. fold m2 in H2. lia.
+Qed.
+
+(* ... and that difference is not zero in general: the permanent pool grows with the history (progression script
+   space, Huffman / quantisation tables, destination manager), so "the accounted total of an idle used instance
+   equals that of a fresh one" is refuted *)
+Lemma idle_total_equality_refuted :
+  exists l1 l2, total (mrun true true (l1 ++ [Abort]) (mm0 1863)) <> total (mrun true true (l2 ++ [Abort]) (mm0 1863)).
+Proof. exists [APerm 1324; ALarge 400000; APerm 679], []. vm_compute. intro H. discriminate H. Qed.
